@@ -235,7 +235,7 @@ func runScript(sc *Scenario, ro runOpts) *runResult {
 				case d != 0 && r.WantCapped:
 					// a catastrophic timed call: must end in a timeout (a negative timeout has expired already)
 					d := max64(d, 0)
-					pre := int64(12*len(op.In.Text()) + 600) // steps spent decoding the input before the deadline is set
+					pre := int64(24*len(op.In.Text()) + 1500) // steps spent decoding the input before the deadline is set
 					if fair && cfg.StallProb == 0 && cfg.SyncStallProb == 0 {
 						vDead = r.T0 + d + 3*p + 2*tickNs + cfg.Jitter + pre*sumCost + 2*schedSlack*maxCost
 					} else {
